@@ -52,6 +52,7 @@ Targets == {
   T("D1", "txbin", <<TypeDyn>>, DynTx, D1, "tx"),
   T("L1", "txrlp", <<>>, TxItem, [ty |-> 0, body |-> L1], "tx"),
   T("D1", "txrlp", <<>>, TxItem, [ty |-> TypeDyn, body |-> D1], "tx"),
+  T("TL", "txlist", <<>>, TxList, << [ty |-> 0, body |-> L1], [ty |-> TypeDyn, body |-> D1] >>, "txs"),
   T("H1", "header", <<>>, Header, H1, "header"),
   T("H0", "header", <<>>, Header, H0, "header"),
   T("B1", "block", <<>>, Block, B1, "block"),
@@ -95,7 +96,12 @@ Common(o) ==
   LET so == Ser(o)
       n == PayloadLen(o)
   IN { Alt("dropped", Raw(<<>>)), Alt("dup", Raw(so \o so)), Alt("emptystr", S(<<>>)), Alt("emptylist", L(<<>>)),
-       Alt("cut-last-byte", Raw(SubSeq(so, 1, Len(so) - 1))), Alt("then-0x00", Raw(so \o <<0>>)) }
+       Alt("cut-last-byte", Raw(SubSeq(so, 1, Len(so) - 1))), Alt("then-0x00", Raw(so \o <<0>>)),
+       \* adversarial length prefixes: declared sizes far beyond the input (must be refused before anything is allocated)
+       Alt("str-claims-4GB", Raw(<<187, 255, 255, 255, 255>> \o so)), Alt("list-claims-4GB", Raw(<<251, 255, 255, 255, 255>> \o so)),
+       Alt("str-claims-2^64", Raw(<<191, 255, 255, 255, 255, 255, 255, 255, 255>> \o so)),
+       Alt("list-claims-2^64", Raw(<<255, 255, 255, 255, 255, 255, 255, 255, 255>> \o so)),
+       Alt("list-claims-16MB", Raw(<<250, 255, 255, 255>> \o so)), Alt("str-claims-64KB", Raw(<<185, 255, 255>> \o so)) }
      \cup (IF n < 56 THEN {Alt("hdr-long", [o EXCEPT !.f = "long"])} ELSE {})
      \cup (IF n < 256 THEN {Alt("hdr-longlz", [o EXCEPT !.f = "longlz"])} ELSE {})
      \cup (IF so[1] \in (129..182) \cup (193..246)
